@@ -204,6 +204,53 @@ def bit3(p, res):
     return n
 
 
+def rot3(p, res):
+    """an in-place rotation inside a loop, applied to an object that lives across the iterations (taken / bound outside the loop, not selected by the loop variable),
+    accumulates: after i iterations the object is rotated by the sum of the exponents.  Walking a buffer through equally spaced positions therefore takes a loop-invariant
+    exponent; an exponent that depends on the loop variable (`-(i * gap)`) lands on the triangular numbers (gap, 3 gap, 6 gap, ...)."""
+    from .cfg import CFG, Flow
+    from .sym import Sym
+    from .rad import _deep_atoms
+    n = 0
+    for f in sorted(p.lib_fns(), key=lambda x: x.uid):
+        if f.is_test() or not f.blocks or "test_suite" in f.uid or not f.uid.startswith(("poulpy_core", "poulpy_bin_fhe", "poulpy_ckks")):
+            continue
+        g = None
+        for bi, t in f.calls():
+            nm = (f.callee_def(t) or {}).get("n", "")
+            if not ("rotate" in nm and nm.endswith(("_assign", "_inplace"))) or len(t["a"]) < 3:
+                continue
+            g = g or CFG(f)
+            L = g.innermost_loop(bi)
+            if L is None:
+                continue
+            flow = Flow(f)
+            # the rotated object: the first `&mut` argument after the exponent
+            obj = t["a"][2]
+            roots = flow.op_roots(obj)
+            carried = bool(roots) and all(r[0] == "param" or (r[0] in ("call", "agg", "other", "bin") and r[1] >= 0 and r[1] not in L["body"]) for r in roots)
+            if not carried:
+                continue
+            n += 1
+            # loop variables: results of `next` inside this loop (and the loops around it that do not contain the object's definition)
+            vars_ = set()
+            for l in g.loops():
+                if bi in l["body"] and all(r[0] == "param" or r[1] not in l["body"] for r in roots):
+                    for b2 in l["body"]:
+                        t2 = f.blocks[b2]["t"]
+                        if t2 and t2["k"] == "Call" and (f.callee_def(t2) or {}).get("n") == "next":
+                            vars_.add(b2)
+            k = Sym(f, Flow(f)).operand(t["a"][1])
+            dep = [a for a in _deep_atoms(k) if a[0] == "call" and a[1] == f.uid and a[2] in vars_]
+            if dep:
+                res.bad("ROT-3", f.pretty, "accumulating-rotation-by-loop-variable:%s" % nm,
+                        "%s rotates an object that lives across the iterations in place by %r, which depends on the loop variable: in-place rotations accumulate, so iteration i leaves "
+                        "the object at the sum of the exponents so far (gap, 3 gap, 6 gap, ...) instead of i * gap" % (f.pretty, k), site=f.where(t["l"]))
+            else:
+                res.ok("ROT-3", {"fn": f.pretty, "rotation": nm, "exponent": repr(k)})
+    return n
+
+
 def run(res, tier):
     from . import c13, c20
     res_level = "other"
@@ -218,6 +265,7 @@ def run(res, tier):
     res.rule("BIT-2", "LOG_BITS / LOG_BYTES / LOG_BYTES_MASK of every impl are consistent with BITS")
     res.rule("DSZ-1", "a function that places row gadgets of a matrix ciphertext from its base2k() and dnum() reads its dsize()")
     res.rule("BIT-3", "blind retrieval butterflies: the stage of distance 2^e is controlled by stored bit bit_rsh + e (forward and reverse networks)")
+    res.rule("ROT-3", "an in-place rotation of an object that lives across the iterations of a loop takes a loop-invariant exponent (in-place rotations accumulate)")
     res.rule("THR-4", "exact partition of the work items of the multi-threaded evaluators")
     res.rule("THR-6", "window parameters keep their role across forwarding calls")
     res.rule("THR-7", "an empty set of work items is handled")
@@ -231,6 +279,8 @@ def run(res, tier):
         res.floor("DSZ-1", "functions placing row gadgets", nd, 3)
         n3 = bit3(p, res)
         res.floor("BIT-3", "blind retrieval butterfly networks", n3, 2)
+        nr3 = rot3(p, res)
+        res.floor("ROT-3", "in-place rotations of loop-carried objects", nr3, 2)
         c20.thr4(p, res)
         n6 = c20.thr6(p, res)
         res.floor("THR-6", "window arguments forwarded by name", n6, 4)
